@@ -468,3 +468,89 @@ func DeserializeValue(dt datatype.DataType, b []byte, v ver) (AV, error) {
 	}
 	return AV{}, fmt.Errorf("value ref: unknown type code %#x", code)
 }
+
+// ValueAnnots walks a VALID serialization of a value of type dt and returns the offsets of its structural fields
+// (collection counts, element/field length prefixes), for structure-aware mutation.
+func ValueAnnots(dt datatype.DataType, b []byte, v ver) []Annot {
+	var out []Annot
+	var walk func(dt datatype.DataType, b []byte, base int)
+	short := v == 2
+	walk = func(dt datatype.DataType, b []byte, base int) {
+		pos := 0
+		readLen := func(forceInt bool) (int, bool) {
+			if short && !forceInt {
+				if pos+2 > len(b) {
+					return 0, false
+				}
+				out = append(out, Annot{Off: base + pos, Width: 2, Kind: "length"})
+				n := int(b[pos])<<8 | int(b[pos+1])
+				pos += 2
+				return n, true
+			}
+			if pos+4 > len(b) {
+				return 0, false
+			}
+			out = append(out, Annot{Off: base + pos, Width: 4, Kind: "length"})
+			n := int(int32(binary.BigEndian.Uint32(b[pos:])))
+			pos += 4
+			return n, true
+		}
+		elem := func(et datatype.DataType, forceInt bool) bool {
+			n, ok := readLen(forceInt)
+			if !ok {
+				return false
+			}
+			if n < 0 {
+				return true
+			}
+			if pos+n > len(b) {
+				return false
+			}
+			walk(et, b[pos:pos+n], base+pos)
+			pos += n
+			return true
+		}
+		count := func() (int, bool) {
+			n, ok := readLen(false)
+			if ok {
+				out[len(out)-1].Kind = "count"
+			}
+			return n, ok
+		}
+		switch x := dt.(type) {
+		case *datatype.List:
+			n, ok := count()
+			for i := 0; ok && i < n; i++ {
+				ok = elem(x.ElementType, false)
+			}
+		case *datatype.Set:
+			n, ok := count()
+			for i := 0; ok && i < n; i++ {
+				ok = elem(x.ElementType, false)
+			}
+		case *datatype.Map:
+			n, ok := count()
+			for i := 0; ok && i < n; i++ {
+				ok = elem(x.KeyType, false) && elem(x.ValueType, false)
+			}
+		case *datatype.Tuple:
+			for _, ft := range x.FieldTypes {
+				if !elem(ft, true) {
+					return
+				}
+			}
+		case *datatype.UserDefined:
+			for _, ft := range x.FieldTypes {
+				if !elem(ft, true) {
+					return
+				}
+			}
+		default:
+			if len(b) > 0 {
+				out = append(out, Annot{Off: base, Width: len(b), Kind: "bytes"})
+			}
+		}
+	}
+	walk(dt, b, 0)
+	return out
+}
